@@ -159,6 +159,65 @@ def const_str_list(v):
     return None
 
 
+def field_through(base, name, idx, depth=0):
+    """what field `name` of a struct value holds when the value was built by a literal and afterwards only written / mutably borrowed along
+    OTHER fields (`let mut v = S { leeway, .. }; v.engine.parse(..)?; .. v.leeway`): list of alternative nodes, or None"""
+    base = peel(base)
+    if depth > 12:
+        return None
+    if base.kind == "agg" and base.d["agg"].get("kind") == "adt" and base.d["agg"].get("variant") in (None, (base.d["agg"].get("adt") or "").rsplit("::", 1)[-1]) \
+            and isinstance(idx, int) and idx < len(base.kids):
+        return [base.kids[idx]]
+    if base.kind == "mut":
+        path = base.d.get("path") or ()
+        if path and path[0] != name and base.kids:
+            return field_through(base.kids[0], name, idx, depth + 1)
+        return None
+    if base.kind == "withfield":
+        path = base.d.get("path") or ()
+        if path and path[0] == name:
+            return [base.kids[1]] if len(path) == 1 else None
+        return field_through(base.kids[0], name, idx, depth + 1)
+    if base.kind == "phi":
+        out = []
+        for k in base.kids:
+            if k.kind == "cycle":
+                return None
+            r = field_through(k, name, idx, depth + 1)
+            if r is None:
+                return None
+            out.extend(x for x in r if not any(x is y for y in out))
+        return out or None
+    return None
+
+
+def int_eval(v, depth=0):
+    """the integer an expression over constants evaluates to (`DEFAULT.min(MAX)`, `cmp::max(a, b)`, a merge of equal constants), or None"""
+    v = peel(v)
+    c = const_value(v)
+    if isinstance(c, int) and not isinstance(c, bool):
+        return c
+    if depth > 6:
+        return None
+    if v.kind == "field" and v.kids:
+        alts = field_through(v.kids[0], v.d.get("name"), v.d.get("idx"))
+        if alts:
+            rs = set(int_eval(a, depth + 1) for a in alts)
+            return list(rs)[0] if len(rs) == 1 else None
+        return None
+    if v.kind == "call" and v.d["term"].get("name") in ("min", "max") and len(v.kids) == 2 and not v.d["term"].get("resolved_local"):
+        a, b = int_eval(v.kids[0], depth + 1), int_eval(v.kids[1], depth + 1)
+        if a is None or b is None:
+            return None
+        return min(a, b) if v.d["term"]["name"] == "min" else max(a, b)
+    if v.kind == "call" and v.d["term"].get("name") in ("clone", "into", "from") and len(v.kids) == 1:
+        return int_eval(v.kids[0], depth + 1)
+    if v.kind == "phi":
+        rs = set(int_eval(k, depth + 1) for k in v.kids if k.kind != "cycle")
+        return list(rs)[0] if len(rs) == 1 else None
+    return None
+
+
 def eval_validation(fx, v, depth=0):
     """list of abstract states (one per phi alternative) of a jsonwebtoken::Validation value tree"""
     v0 = v
@@ -207,6 +266,8 @@ def eval_validation(fx, v, depth=0):
         for st in sts:
             st = _copy(st)
             cv = const_value(val)
+            if cv is None and f in ("leeway", "reject_tokens_expiring_in_less_than"):
+                cv = int_eval(val)
             if f in ("validate_exp", "validate_nbf", "validate_aud", "leeway", "reject_tokens_expiring_in_less_than"):
                 st[f] = cv if cv is not None else "unknown"
             elif f == "required_spec_claims":
